@@ -22,6 +22,14 @@ PROPS = {
         "trusted_base": TB_COMMON,
         "assumptions": ASSUME_COMMON,
     },
+    "C06": {
+        "rule": "all 4200 arguments of round_pair; the small scope of the quantifier (|unscaled| < 10^5, scales -3..8, every target scale from 4 left of the leading digit "
+                "to 4 right of the last, 7 modes): complete in thorough, a seed-chosen 1/60 slice in quick; random decimals up to 3000 digits whose discarded tail is "
+                "5000..0 / 4999..9 / 5000..01 / 0..0 / 0..01 / 9..9 / random, cut inside the digits, just left of the leading digit, far left, or extended; with_scale and round(n) too. "
+                "Observable compared: exact (int, scale). Non-trivial = non-zero input actually losing digits (target scale < scale).",
+        "trusted_base": TB_COMMON,
+        "assumptions": ASSUME_COMMON,
+    },
 }
 
 
